@@ -10,6 +10,7 @@
 -/
 import Cellml.Analyser.Proofs
 import Cellml.Analyser.Deps
+import Cellml.Analyser.Requalify
 namespace Cellml.Props.C05
 open Cellml.Analyser
 
@@ -145,6 +146,36 @@ theorem ode_self_dependency_witness : eqDeps (analyse selfDep) 0 = [0] := by dec
 /-- … and with the initial value in the component of the ODE the self-dependency is removed -/
 theorem ode_self_dependency_removed :
     eqDeps (analyse { selfDep with eqs := selfDep.eqs.map fun e => { e with comp := 0 } }) 0 = [] := by decide
+
+/-- **requalification runs to its fixpoint**: after it, no equation typed "variable-based constant" reads (apart from
+    its own unknown) a class that is not a constant, a computed true constant or a computed variable-based constant —
+    however long the chain of equations hanging off a non-constant variable is, in whatever order they are listed -/
+theorem requalified (s : St) (i u : Nat) (e : E) (h : (requalify s).eqs[i]? = some e) (hv : e.ty = .varConstant)
+    (hu : e.unknowns.head? = some u) :
+    ∀ v ∈ e.all, v ≠ u → ((requalify s).v v).ty = .constant ∨ ((requalify s).v v).ty = .ctc ∨ ((requalify s).v v).ty = .cvc := by
+  have hs := requalify_stable s i
+  unfold needs at hs
+  rw [h] at hs
+  simp only [hv, if_true, hu] at hs
+  intro v hvm hne
+  unfold trig at hs
+  have := (List.any_eq_false.mp hs) v hvm
+  simp only [Bool.and_eq_true, decide_eq_true_eq, not_and, ne_eq] at this
+  by_cases h1 : ((requalify s).v v).ty = .constant
+  · exact Or.inl h1
+  · by_cases h2 : ((requalify s).v v).ty = .ctc
+    · exact Or.inr (Or.inl h2)
+    · exact Or.inr (Or.inr (Classical.not_not.mp (this ⟨⟨hne, h1⟩, h2⟩)))
+
+/-! non-vacuity: a is solved by an NLA equation (a a = 4, a initialised); X = 2 a, Y = X + 1, Z = Y + 1 listed in reverse -/
+def chainNla : St :=
+  { vars := [⟨.initialised, none, false, 0⟩, ⟨.unknown, none, false, 0⟩, ⟨.unknown, none, false, 0⟩, ⟨.unknown, none, false, 0⟩],
+    eqs := [{ comp := 0, vars := [3, 2], odes := [], all := [3, 2], lhs := some (3, false), rhs := none },
+            { comp := 0, vars := [2, 1], odes := [], all := [2, 1], lhs := some (2, false), rhs := none },
+            { comp := 0, vars := [1, 0], odes := [], all := [1, 0], lhs := some (1, false), rhs := none },
+            { comp := 0, vars := [0], odes := [], all := [0, 0], lhs := none, rhs := none }] }
+example : (analyse chainNla).vars.map (·.ty) = [.initAlg, .algebraic, .algebraic, .algebraic] := by decide
+example : (analyse chainNla).eqs.map (·.ty) = [.algebraic, .algebraic, .algebraic, .nla] := by decide
 
 /-- full statement of order independence (not proved for the model; checked on the implementation): permuting the
     equations of a system does not change the type of any class nor the model type -/
